@@ -23,9 +23,11 @@ SBB = "storage_base:StorageBackendBase."
 STORAGE_BASE_FUNCS = [SBB + n for n in ("is_memoized", "is_all_memoized", "get_mementos", "read_result", "memoize", "forget_call", "forget_everything",
                                         "forget_function", "list_functions", "list_mementos", "read_metadata", "write_metadata")]
 
+CODEC_FUNCS = ["storage_base:Codec.BlobStrategy.store", "storage_base:Codec.NullStrategy.store"]
+
 prop("C05",
-     modules=["storage"],
-     functions=MEMORY_CACHE_FUNCS + STORAGE_BASE_FUNCS,
+     modules=["storage", "codec"],
+     functions=MEMORY_CACHE_FUNCS + STORAGE_BASE_FUNCS + CODEC_FUNCS,
      design_ref="DESIGN.md section 6, C05",
      trusted=["history induction (DESIGN 3.3) over the per-operation refinement contracts",
               "interface contracts of MetadataSource / DataSource / Codec are assumed at this level (abstract methods)"],
@@ -36,7 +38,7 @@ prop("C05",
 
 prop("C07",
      modules=["codec"],
-     functions=["storage_base:Codec.BlobStrategy.store", "storage_base:Codec.NullStrategy.store"],
+     functions=CODEC_FUNCS,
      design_ref="DESIGN.md section 6, C07",
      trusted=["SHA-256 treated as injective", "DataSource interface contract (versions immutable, output creates a fresh version) is assumed; _FilesystemDataSource is not proved against it"],
      assumptions=["an override key does not start with 'c/' (otherwise a user-chosen key aliases a content address)"],
